@@ -267,10 +267,30 @@ def structure_rules(chk):
             chk.bad("O19.3", name, "the location of a list item is %s, not <current location> + '[' + index + ']'" % (show(w) if w else "not passed"), node=fi.node, stmt="where-list")
             ok3 = False
     # plain data unchanged
-    outs = Interp(prog, fi, decide=lambda it, p, t: False if (t[0] == "call" and t[1] == ISINSTANCE) else None).run()
+    # one scenario per kind of scalar / plain container: isinstance(structure, X) is decided from that kind's MRO
+    import builtins as _b
+
+    SCALARS = {"str": str, "int": int, "float": float, "bool": bool, "bytes": bytes, "NoneType": type(None), "tuple": tuple, "set": set, "an object of another type": object}
+    outs = []
+    for label, ty in SCALARS.items():
+        mro = {"ext:builtins." + c.__name__ for c in ty.__mro__}
+
+        def decide_scalar(it, p, t, mro=mro):
+            if t[0] == "call" and t[1] == ISINSTANCE and len(t[2]) == 2 and t[2][0] == STRUCT:
+                c = t[2][1]
+                names = [c] if c[0] != "tuple" else list(c[1])
+                return any(n[0] == "glob" and n[1] in mro for n in names)
+            if t[0] == "call" and t[1] == ISINSTANCE:
+                return False
+            return None
+
+        for o in Interp(prog, fi, decide=decide_scalar).run():
+            o.label = label
+            outs.append(o)
+    chk.count(len(outs))
     for o in outs:
         if o.kind != "return" or o.value != STRUCT:
-            chk.bad("O19.1", name, "plain data is not returned unchanged (%s)" % (show(o.value) if o.value else o.kind), node=fi.node, stmt="plain-data")
+            chk.bad("O19.1", name, "plain data (%s) is not returned unchanged (%s)" % (o.label, show(strip_sites(o.value)) if o.value else o.kind), node=fi.node, stmt="plain-data", input=o.label)
             ok1 = False
     if ok1:
         chk.ok("O19.1", name, "every child is translated (unfiltered) before construct, which is called exactly once iff __type__ is a key; plain data unchanged", node=fi.node)
@@ -436,7 +456,8 @@ def construct_rules(chk):
         if present and pos != [("star", ARGSV)]:
             chk.bad(rule, name, "positional arguments are %s, not *__args__" % [show(a) for a in v[2]], node=fi.node, stmt="args")
             ok = False
-        if not present and pos not in ([], [("star", ("list", ()))], [("star", ("tuple", ()))]):
+        EMPTY_SEQS = [("list", ()), ("tuple", ()), ("call", ("glob", "ext:builtins.list"), (), ()), ("call", ("glob", "ext:builtins.tuple"), (), ())]
+        if not present and pos != [] and not (len(pos) == 1 and pos[0][0] == "star" and pos[0][1] in EMPTY_SEQS):
             chk.bad(rule, name, "without __args__ the factory gets the positional arguments %s (required: none)" % [show(a) for a in v[2]], node=fi.node, stmt="args-absent")
             ok = False
         stars = [val for k, val in v[3] if k is None]
@@ -486,8 +507,22 @@ def construct_rules(chk):
         if o.kind == "return" and o.value == NONE:
             chk.bad(rule, ln.qual, "load_name can return None for a name", node=ln.node, stmt="returns-none")
             ok = False
+    # every dot of the name is a lookup step: module, then attribute by attribute (nested classes, classmethod factories)
+    NAME = ("sym", ln.params()[0]) if ln.params() else None
+    splits = []
+    for n in ast.walk(ln.node):
+        if isinstance(n, ast.Call) and isinstance(n.func, ast.Attribute) and n.func.attr in ("split", "rsplit", "partition", "rpartition") and isinstance(n.func.value, ast.Name) and NAME is not None and n.func.value.id == NAME[1]:
+            splits.append(n)
+    chk.count(len(splits))
+    for n in splits:
+        whole = n.func.attr == "split" and len(n.args) == 1 and isinstance(n.args[0], ast.Constant) and n.args[0].value == "." and not n.keywords
+        if not whole:
+            chk.bad(rule, ln.qual, "the dotted name is taken apart by %s: only part of the dots become lookup steps, so a name with more than one attribute level below its module (a nested class, a classmethod of a class) no longer resolves" % util.unparse(n), node=n, stmt="name-split %s" % n.func.attr)
+            ok = False
+    if not splits:
+        chk.undecided(rule, ln.qual, "how load_name takes the dotted name apart was not recognised", node=ln.node, aux=True)
     if ok:
-        chk.ok(rule, ln.qual, "every failure to import / look up a component ends in a raise", node=ln.node, input="%d paths" % len(outs))
+        chk.ok(rule, ln.qual, "every failure to import / look up a component ends in a raise; the name is split on every dot", node=ln.node, input="%d paths" % len(outs))
 
 
 def run(chk):
